@@ -93,6 +93,12 @@ PROPS = {
         "required_theorems": ["c05_result", "c05_exit_reasons", "c05_thread_terminates", "c05_add_order_irrelevant",
                               "c05_exit_lossless_wait", "c05_block_invariant"],
         "runs": [
+            # hypothesis of the runner theorems: every library block is a chunk-independent stream function with truthful
+            # verdicts (checked on the real blocks: drip-fed vs greedy, verdict acceptor, eof()/constructor probes)
+            {"sub": "blocks", "quick": ["--seed", "{seed}", "--mode", "self", "--set", "every", "--cases", 900, "--steps", 40,
+                                        "--fit-probes", 1, "--eof-probes", 1],
+             "thorough": ["--seed", "{seed}", "--mode", "self", "--set", "every", "--cases", 20000, "--steps", 60,
+                          "--fit-probes", 1, "--eof-probes", 1], "timeout": 20000},
             {"sub": "sched", "quick": ["--seed", "{seed}", "--what", "mt", "--mt-cases", 400],
              "thorough": ["--seed", "{seed}", "--what", "mt", "--mt-cases", 40000], "timeout": 20000},
             {"sub": "graphs", "quick": ["--seed", "{seed}", "--runner", "mt", "--cases", 50, "--configs", 3],
@@ -114,8 +120,14 @@ PROPS = {
     },
     "C06": {
         "required_theorems": ["c06_exit_quiescent", "c06_quiet_pass_calls", "c06_progress_continues",
-                              "c06_quiescent_is_fixpoint"],
+                              "c06_quiescent_is_fixpoint", "c06_terminates"],
         "runs": [
+            # hypothesis of the runner theorems: every library block is a chunk-independent stream function with truthful
+            # verdicts (checked on the real blocks: drip-fed vs greedy, verdict acceptor, eof()/constructor probes)
+            {"sub": "blocks", "quick": ["--seed", "{seed}", "--mode", "self", "--set", "every", "--cases", 900, "--steps", 40,
+                                        "--fit-probes", 1, "--eof-probes", 1],
+             "thorough": ["--seed", "{seed}", "--mode", "self", "--set", "every", "--cases", 20000, "--steps", 60,
+                          "--fit-probes", 1, "--eof-probes", 1], "timeout": 20000},
             {"sub": "sched", "quick": ["--seed", "{seed}", "--what", "st", "--cases", 4000],
              "thorough": ["--seed", "{seed}", "--what", "st", "--cases", 400000]},
             {"sub": "graphs", "quick": ["--seed", "{seed}", "--runner", "st", "--cases", 60, "--configs", 3],
@@ -174,6 +186,11 @@ PROPS = {
         "required_theorems": ["c08_sync_chunk_independent", "c08_sync_prefix", "c08_sync_window", "c08_skip", "c08_delay",
                               "c08_rtlsdr", "c08_no_panic_hand", "c08_resampler", "c08_fir"],
         "runs": [
+            # valid IL2P transmissions (library test vector + sync tags) between noise: frames must survive any chunking
+            {"sub": "blocks", "quick": ["--seed", "{seed}", "--mode", "self", "--set", "every", "--block", "il2p", "--cases", 250,
+                                        "--steps", 40],
+             "thorough": ["--seed", "{seed}", "--mode", "self", "--set", "every", "--block", "il2p", "--cases", 10000,
+                          "--steps", 60], "timeout": 20000},
             {"sub": "blocks", "quick": ["--seed", "{seed}", "--set", "modelled", "--cases", 1200, "--steps", 40],
              "thorough": ["--seed", "{seed}", "--set", "modelled", "--cases", 60000, "--steps", 80]},
             {"sub": "blocks", "quick": ["--seed", "{seed}", "--mode", "self", "--set", "every", "--cases", 1400, "--steps", 40,
@@ -225,6 +242,11 @@ PROPS = {
         "runs": [
             {"sub": "blocks", "quick": ["--seed", "{seed}", "--set", "modelled", "--cases", 1600, "--steps", 30],
              "thorough": ["--seed", "{seed}", "--set", "modelled", "--cases", 80000, "--steps", 60]},
+            # vector-to-stream (no Lean model: packet input): output = concatenation of the packets, drip-fed and greedy
+            {"sub": "blocks", "quick": ["--seed", "{seed}", "--mode", "self", "--set", "every", "--block", "v2s", "--cases", 300,
+                                        "--steps", 40, "--fit-probes", 1],
+             "thorough": ["--seed", "{seed}", "--mode", "self", "--set", "every", "--block", "v2s", "--cases", 20000,
+                          "--steps", 60, "--fit-probes", 1], "timeout": 20000},
             # FFT-stream framing against the DFT of each frame (random pieces, nearly full output), and the other DSP specs
             {"sub": "dsp", "quick": ["--seed", "{seed}", "--cases", 60],
              "thorough": ["--seed", "{seed}", "--cases", 3000], "timeout": 20000},
@@ -246,7 +268,7 @@ PROPS = {
         "required_theorems": ["c11_fir_any_chunking", "c11_fir_sliding", "c11_fir_eq_conv", "c11_kernels_agree",
                               "c11_fft_size", "c11_ola_eq_conv", "c11_fft_eq_fir_delayed", "c11_iir_recurrence",
                               "c11_single_pole", "c11_lowpass_hamming", "c11_lowpass_blackman", "c11_hilbert_taps",
-                              "c11_fm_identities", "c11_iir_clamped"],
+                              "c11_fm_identities", "c11_iir_clamped", "c11_fft_block"],
         "runs": [
             {"sub": "blocks", "quick": ["--seed", "{seed}", "--set", "dsp", "--cases", 900, "--steps", 30, "--tag-heavy", 1],
              "thorough": ["--seed", "{seed}", "--set", "dsp", "--cases", 40000, "--steps", 60, "--tag-heavy", 1],
@@ -278,7 +300,6 @@ PROPS = {
             "results (rounding) is bounded only by the harness's f64 reference comparison",
             "the FFT engine (rustfft crate) computes the cyclic convolution with the taps: assumed by c11_ola_eq_conv, "
             "checked on integer data to 0.02 by '!dsp engine' lines",
-            "FftFilter's batching loop (buffering across work() calls) = olaRun: by correspondence ('fftx' block lines), not proved",
             "atan2(y, x) = arg(x + iy) (libm); sin, cos of the float code = the real functions up to rounding",
             "Mathlib (real analysis, big operators) for the design/identity theorems",
         ],
@@ -325,7 +346,7 @@ PROPS = {
     },
     "C13": {
         "required_theorems": ["c13_table", "c13_crc_is_x25", "c13_crc_gate", "c13_bounds", "c13_abort", "c13_roundtrip",
-                              "c13_frames", "c13_destuff", "c13_resync", "c13_after_noise"],
+                              "c13_frames", "c13_destuff", "c13_resync", "c13_after_noise", "c13_single_bit_detected", "c13_two_bits_detected", "c13_fix_repairs"],
         "runs": [
             {"sub": "hdlc", "quick": ["--seed", "{seed}", "--cases", 2500],
              "thorough": ["--seed", "{seed}", "--cases", 200000], "timeout": 20000},
@@ -615,7 +636,7 @@ MANIFEST_TEXT = {
                 "default, AVX and portable-simd builds; float results are compared with an f64 reference within rounding bounds.",
         "design_ref": "DESIGN.md section 2, C11",
         "note": "PARTIAL: rounding bounds are tested, not proved; rustfft = cyclic convolution is assumed (tested); the "
-                "FftFilter batching loop is tied by correspondence. low_pass with Blackman windows was asymmetric: fix: commit.",
+                "FftFilter batching loop is proved for every schedule (c11_fft_block). low_pass with Blackman windows was asymmetric: fix: commit.",
         "technique": "Lean 4 proof (induction over schedules and batches, ring algebra, real analysis via Mathlib) + bit-exact "
                      "Float32 correspondence in three builds + f64 reference check",
     },
@@ -655,8 +676,10 @@ MANIFEST_TEXT = {
                 "correspondence with an independent encoder.",
         "design_ref": "DESIGN.md section 2, C13",
         "note": "Five deframer defects were repaired by fix: commits (len<2 panic, max_size equality, shared-zero flags, flag in "
-                "progress lost at the too-long reset). Not proved: error detection (1-2 bit corruptions rejected, "
-                "single-bit repair) - by correspondence on every single-bit and sampled double-bit corruption.",
+                "progress lost at the too-long reset). Proved too: every single-bit and double-bit corruption of the data (frames < 4095 bytes) "
+                "is rejected and the single-bit repair returns the original (the CRC step is a linear bijection whose orbit "
+                "through the single-bit states has length exactly 32767, by kernel evaluation). Corruptions that hit the "
+                "checksum field together with the data are covered by correspondence only.",
         "technique": "Lean 4 proof over a model with translator-generated CRC table + differential correspondence with an independent encoder",
     },
     "C17": {
